@@ -352,7 +352,19 @@ func checkC11(c C11Case) (o Outcome) {
 				s.d.SetSession(string(r.Session))
 				var list []kv
 				var err error
-				if p := catchPanic(func() { list, err = dumpAll(ctx, s.d, nil) }); p != nil {
+				// the listing is read with other lookups on the same handle in between (another
+				// data type, then back): what an open listing returns is fixed when it is opened
+				between := func() {
+					for _, t2 := range []uint8{db.DATATYPE_USERDATA, db.DATATYPE_STATE, db.DATATYPE_TEMPLATE} {
+						if t2 == r.Typ {
+							continue
+						}
+						s.d.SetPrefix(t2)
+						s.d.Get(ctx, []byte("k"))
+					}
+					s.d.SetPrefix(r.Typ)
+				}
+				if p := catchPanic(func() { list, err = dumpAllBetween(ctx, s.d, nil, between) }); p != nil {
 					return fail("panic", "", "Dump under session %q panics: %s", r.Session, p.val)
 				}
 				if err != nil {
